@@ -145,6 +145,7 @@ def gen_ops(rng, cfg, nops):
         'update_repeat': rng.choice([0, 0.5, 1.5]),
         'modify_bounds': rng.choice([0, 0.4, 1.0]),
         'inplace_bounds': rng.choice([0, 0.4, 1.0]),
+        'prior_set_bounds': rng.choice([0, 0.4, 1.0]),
         'module_compile': rng.choice([0, 0.3, 1.0]),
         'rebuild': rng.choice([0, 0.5, 1.0]) if cfg['kind'] == 'real' else 0,
         'rebuild_without': rng.choice([0, 0.4, 0.8])
@@ -178,6 +179,12 @@ def gen_ops(rng, cfg, nops):
                                           plugin=True)])
         elif k in ('enable_derived', 'disable_derived'):
             ops.append([k, rng.choice(dnames)])
+        elif k == 'prior_set_bounds':
+            # the limits of a prior object the optimizer already holds are
+            # changed through the prior's own set_bounds (its own space)
+            n = rng.choice(names)
+            lo = rng.uniform(-3, 2)
+            ops.append([k, n, [lo, lo + rng.uniform(0.1, 3)]])
         elif k == 'compile':
             ops.append(['compile'])
         elif k == 'update_model':
@@ -456,6 +463,7 @@ def execute(case, keep_text=False):
     #                     optimizer compiled refers to tables that are gone
     dirty_since_compile = False
     held_bounds = {}
+    held_priors = {}
     fault_kinds = set()
     direct_since_compile = False
 
@@ -522,6 +530,20 @@ def execute(case, keep_text=False):
                      '%s: prior boundaries %s, settings imply %s'
                      % (c['name'], pb, rb), step)
                 bad = True
+                continue
+            # ... and what the samplers would draw from it is the same prior
+            # (limits and transform of one object must not drift apart)
+            if rb[0] == rb[1]:
+                continue      # (a degenerate prior has no transform to speak of)
+            for u_ in (0.25, 0.75):
+                ps = float(real_call(step, 'prior.sample', p.sample, u_))
+                rs = float(M.ref_prior_sample(c['spec'], u_))
+                if not _close(ps, rs, 1e-9):
+                    viol('views', 'prior-sample:%s' % kind,
+                         '%s: prior maps u=%r to %r, settings imply %r'
+                         % (c['name'], u_, ps, rs), step)
+                    bad = True
+                    break
         fb = real_call(step, 'fit_boundaries', lambda: list(opt.fit_boundaries))
         for c, b in zip(exp, fb):
             lo, hi = c['bounds']
@@ -618,7 +640,7 @@ def execute(case, keep_text=False):
             gone = None
             if k in ('enable_fit', 'disable_fit', 'set_mode', 'set_boundary',
                      'set_factor_boundary', 'set_prior', 'direct_write',
-                     'modify_bounds', 'inplace_bounds') \
+                     'modify_bounds', 'inplace_bounds', 'prior_set_bounds') \
                     and op[1] not in ref.params:
                 gone = op[1]
             elif k == 'via_other' and op[2] not in ref.params:
@@ -627,7 +649,7 @@ def execute(case, keep_text=False):
                 # a parameter the model no longer has (its component was
                 # removed before a rebuild): naming it is an error now
                 if k in ('direct_write', 'via_other', 'modify_bounds',
-                         'inplace_bounds'):
+                         'inplace_bounds', 'prior_set_bounds'):
                     continue
                 raised = False
                 try:
@@ -681,8 +703,29 @@ def execute(case, keep_text=False):
                 v = ref.values[op[1]]
                 ref.params[op[1]]['bounds'] = [op[2][0] * v, op[2][1] * v]
                 dirty_since_compile = True
+            elif k == 'prior_set_bounds':
+                pobj, pspec = held_priors.get(op[1], (None, None))
+                spec0 = ref.params[op[1]].get('user_prior')
+                if pobj is None or not spec0 or spec0 is not pspec or \
+                        spec0['kind'] not in ('Uniform', 'LogUniform'):
+                    continue       # (the prior in force is not that object)
+                nb = list(op[2])
+                if spec0['kind'] == 'Uniform' and not any(
+                        p_.get('signed') for p_ in cfg['mparams'] +
+                        cfg['oparams'] if p_['name'] == op[1]):
+                    # a positive linear range (only linear-only parameters
+                    # may take negative values)
+                    nb = [10 ** x for x in nb]
+                real_call(step, k, pobj.set_bounds, list(nb))
+                ref.params[op[1]]['user_prior'] = {
+                    'kind': spec0['kind'], 'args': {'bounds': list(nb)}}
+                held_priors[op[1]] = (pobj, ref.params[op[1]]['user_prior'])
+                out.bump('probes', 'prior_limits_changed_on_live_object')
+                dirty_since_compile = True
             elif k == 'set_prior':
-                real_call(step, k, opt.set_prior, op[1], M.make_prior(op[2]))
+                held_priors[op[1]] = (M.make_prior(op[2]), op[2])
+                real_call(step, k, opt.set_prior, op[1],
+                          held_priors[op[1]][0])
                 ref.params[op[1]]['user_prior'] = op[2]
                 dirty_since_compile = True
                 if M.ref_prior_is_log(op[2]) != \
